@@ -3,7 +3,7 @@
 # In /tmp/seed-<ID>: demo on clean tree (must pass), demo with patch (must fail), crate lib tests with patch (must pass).
 set -u
 id="$1"; crate="$2"; tdir="$3"; patch="$4"; demo="$5"; shift 5
-wt=/tmp/seed-$id; export CARGO_TARGET_DIR=$wt/target
+wt=${SEED_WT:-/tmp/seed-$id}; export CARGO_TARGET_DIR=$wt/target
 cd $wt || exit 2
 [ -z "$(git status --short)" ] || { echo "worktree dirty"; git status --short; }
 mkdir -p $tdir; cp "$demo" $tdir/; name=$(basename "$demo" .rs)
